@@ -39,7 +39,7 @@ claim(
     "A (byte channel)",
     "DESIGN.md §4, §8 C02",
     "deterministic simulation: seeded fault-sequence search on the byte channel between real encoder/serialiser and the real validating decoder",
-    "Seeded search over fault sequences (truncation/EOF at arbitrary points, stored bit/byte corruption, range loss/duplication/insertion/swap, field-aware overwrites, data-unit drop/duplication) applied to real encoder output for seeded small configurations; the real validator reads the result through a simulated file. Every run is one exactly repeatable execution; violations are minimised and replayed in a fresh interpreter. Sampling: a clean batch is evidence, not proof.",
+    "Seeded search over fault sequences (truncation/EOF at arbitrary points, stored bit/byte corruption, range loss/duplication/insertion/swap, field-aware overwrites, data-unit drop/duplication) applied to real encoder output for seeded small configurations; the real validator reads the result through a simulated file. A minority of runs enumerate every truncation point / single-bit flip / one-byte deletion of a window of one sampled stream, one fault at a time. Every run is one exactly repeatable execution; violations are minimised and replayed in a fresh interpreter (with the worker process's earlier runs when the violation needs them). Sampling: a clean batch is evidence, not proof.",
     "Assumes the scope bounds (<=64x64 pictures, depths <=4, <=16x16 slices, excursions <=2^72) implemented by wrapping the decoder's level-constraint assertion in the harness process; SimFile stands in for real files; faults are at rest (persistent).",
 )
 
@@ -110,16 +110,16 @@ claim(
     "C (simulated file system, at-rest faults)",
     "DESIGN.md §6, §8 C23",
     "deterministic simulation: raw/JSON picture files written by the real writer to a simulated file system, seeded at-rest fault lists, real reader and comparison tool judged against a harness-side raw decoder",
-    "Seeded search over formats (sizes, subsampling, coding modes, bit depths 1-64 incl. non-byte multiples), in-range samples, picture numbers up to 2^32-1 and explicit at-rest fault lists (sample-bit vs padding-bit flips, truncation/extension, changed, truncated or corrupted metadata, missing JSON). The real file_format.write/read must round-trip; vc2-picture-compare (function and main, on files and directories) must exit 0 exactly when an independent little-endian reference decoder finds all samples and metadata equal, and report the reference's differing-pixel counts.",
+    "Seeded search over formats (sizes, subsampling, coding modes, bit depths 1-129 incl. non-byte multiples and exact power-of-two excursions), in-range samples, picture numbers up to 2^32-1 and explicit at-rest fault lists (sample-bit vs padding-bit flips, truncation/extension, changed, truncated or corrupted metadata, missing JSON). The real file_format.write/read must round-trip; vc2-picture-compare (function and main, on files and directories) must exit 0 exactly when an independent little-endian reference decoder finds all samples and metadata equal, and report the reference's differing-pixel counts.",
     "SimFS stands in for the disk; for metadata a harness-side reader finds damaged (invalid JSON / out-of-range fields) only 'never exit 0' is asserted; behaviour for missing directories is not asserted. Sampling, not proof.",
 )
 claim(
     "C24",
     "C (simulated file system + baton scheduler + fresh-interpreter arm)",
     "DESIGN.md §6, §8 C24",
-    "deterministic simulation: worker commands as baton-scheduled threads on a simulated file system under seeded scheduling policies (random, run-to-completion permutations, PCT, coarse, bursty), plus sequential fresh-interpreter runs under seeded PYTHONHASHSEEDs and command orders",
-    "Seeded search over interleavings: the worker commands the real CLI emits with --parallel run as tasks that can be pre-empted at every simulated file-system operation; a seeded policy decides who runs; the final tree must equal the real serial run's tree byte for byte and no task may raise. Every 80th run executes the same commands in fresh interpreters, sequentially in a seeded permuted order with seeded hash seeds, on a real scratch directory, and compares with the in-process serial tree. The recorded schedule (run-length list of task choices) is the replay.",
-    "Threads stand in for worker processes (sound only if the library keeps no process-global mutated state; backed by the fresh-interpreter arm). Pre-emption only at file-system operations. Natural pictures swapped for the test-suite's small ones; seven tiny codec columns (corpus/codec_features.csv). Sampling, not proof.",
+    "deterministic simulation: worker commands as baton-scheduled threads on a simulated file system under seeded scheduling policies (random, run-to-completion permutations, PCT, coarse, bursty), plus sequential fresh-interpreter runs (single column, and multi-column serial process vs worker processes) under seeded PYTHONHASHSEEDs and command orders",
+    "Seeded search over interleavings: the worker commands the real CLI emits with --parallel run as tasks that can be pre-empted at every simulated file-system operation; a seeded policy decides who runs; the final tree must equal the real serial run's tree byte for byte and no task may raise. Every 80th run executes the same commands in fresh interpreters, sequentially in a seeded permuted order with seeded hash seeds, on a real scratch directory, and compares with the in-process serial tree; another every-80th run generates several near-identical ('twin') columns in ONE fresh serial process and compares with the emitted worker commands run in separate fresh processes. The recorded schedule (run-length list of task choices) is the replay.",
+    "Threads stand in for worker processes (sound only if the library keeps no process-global mutated state; backed by the fresh-interpreter arm). Pre-emption only at file-system operations. Natural pictures swapped for the test-suite's small ones; eight tiny codec columns (corpus/codec_features.csv) and thirteen twin columns (corpus/codec_features_twins*.csv). Sampling, not proof.",
 )
 
 _D_NOTE = "Degenerate single-node case of the technique: no scheduler, clock or multi-party dimension; a seeded operation/fault history, an executable reference model (or differential oracle), shrinking and exact replay. If a reviewer regards this as outside the family, this is the check to discount. Sampling, not proof."
@@ -129,7 +129,7 @@ claim(
     "D (API-call histories, single node)",
     "DESIGN.md §7, §8 C20",
     "seeded operation-history search vs reference model (single node, no scheduler): write/read/seek/tell histories on BitstreamWriter, BitstreamReader and the validator's reader over simulated files incl. truncated copies (EOF instant)",
-    "Seeded search over histories of primitive writes (bits, fixed-width and byte literals, bit arrays, byte strings, exp-Golomb values up to 2^70, in and out of range), bounded blocks of positive/zero/negative length with values running past their end, byte-aligned seek-back patches, flushes and tells, then the mirrored read history on both readers over the written bytes and over a truncated copy, then seeks and re-reads. A list-of-bits model predicts every value, position, unused-bit count, error class and the EOF instant.",
+    "Seeded search over histories of primitive writes (bits, fixed-width and byte literals, bit arrays of either bit-endianness, byte strings, exp-Golomb values up to 2^70, in and out of range), bounded blocks of positive/zero/negative length with values running past their end, byte-aligned seek-back patches, flushes and tells, then the mirrored read history on both readers over the written bytes and over a truncated copy, then seeks and re-reads. A list-of-bits model predicts every value, position, unused-bit count, error class and the EOF instant.",
     _D_NOTE + " Negative block lengths are checked on the reader/writer pair only (unreachable for the validator; observation O3).",
 )
 claim(
@@ -145,7 +145,7 @@ claim(
     "D (API-call histories, single node)",
     "DESIGN.md §7, §8 C27",
     "seeded operation-history search vs plain-dict reference model (single node, no scheduler) over every fixeddict type, incl. pickle and the worker-command transport",
-    "Seeded search over histories of construction, item assignment, setdefault, update, in-place merge, copy, delete and pickle round trips (pickle protocols 0-5 and the worker encode/decode transport) on every fixeddict type the library defines, with declared and undeclared keys; after every operation the key set must stay within the declared keys, undeclared keys must raise FixedDictKeyError, content must equal a plain-dict model, and copies/unpickled objects must be equal and of the same type.",
+    "Seeded search over histories of construction, item assignment, setdefault, update and in-place merge (from mappings, pairs, keywords and fixed-entry dictionaries of other types), copy, delete and pickle round trips (pickle protocols 0-5 and the worker encode/decode transport) on every fixeddict type the library defines, with declared and undeclared keys; after every operation the key set must stay within the declared keys, undeclared keys must raise FixedDictKeyError, content must equal a plain-dict model, and copies/unpickled objects must be equal and of the same type.",
     _D_NOTE,
 )
 claim(
@@ -153,7 +153,7 @@ claim(
     "A' (text channel on a stored configuration file)",
     "DESIGN.md §8 C28",
     "seeded storage-fault search (character/cell/line level) on the stored codec-features CSV files with a domain oracle; weakest fit of the technique (no scheduler or clock)",
-    "Seeded search over lists of storage faults on three stored CSV files (truncation at any character, dropped/duplicated/swapped lines, overwritten cells, added rows/columns, inserted quotes/NUL/BOM, CR/LF changes) delivered exactly as the CLI delivers them (UTF-8 bytes through a utf-8-sig TextIOWrapper). read_codec_features_csv must return configurations inside their documented domains or raise InvalidCodecFeaturesError; any other exception or an out-of-domain value is a violation.",
+    "Seeded search over lists of storage faults on three stored CSV files (truncation at any character, dropped/duplicated/swapped lines, overwritten cells, cells copied between columns, added rows/columns, inserted quotes/NUL/BOM, CR/LF changes) delivered exactly as the CLI delivers them (UTF-8 bytes through a utf-8-sig TextIOWrapper). read_codec_features_csv must return configurations inside their documented domains or raise InvalidCodecFeaturesError; any other exception or an out-of-domain value is a violation.",
     "Weakest fit: a configuration file at rest is the only seam; inputs stay valid UTF-8 and below 64 KiB. Sampling, not proof.",
 )
 
